@@ -550,7 +550,7 @@ def handlePipeline (j : Json) : Except String Json := do
   match Pipeline.buildCnf p with
   | .ok c => return Json.mkObj [("ok", Json.mkObj [("cnf", jCnf c), ("fresh", toJson b.fresh),
       ("wf", toJson (Pipeline.checkWf p).1), ("states_defined", toJson (Pipeline.checkWf p).2.1),
-      ("input_ok", toJson ((Pipeline.checkWf p).2.2 && Pipeline.seqOk p)),
+      ("input_ok", toJson ((Pipeline.checkWf p).2.2 && Pipeline.seqOk p && Pipeline.crossOk p)),
       ("reqs", Json.arr (b.reqs.map requestJson).toArray), ("cnfs", jCnf (Pipeline.cnfsJson b))])]
   | .error e => return errJson e
 
